@@ -96,6 +96,7 @@ def alt_calls(ctx, config):
     if r is not None:
         ctx.count("replaced_sha256_compression_blocks", r.i(0))
         ctx.check(r.i(0) > 0, "monitor:replaced_compression_function_never_called", "", config)
+        ctx.check(r.i(1) == 0, "replaced_compression:called_with_zero_blocks", "%d invocations with n_blocks == 0" % r.i(1), config)
 
 def wl_openings(ctx, config):
     rng = ctx.rng
